@@ -399,6 +399,38 @@ def _filter_calls(fn_node):
             neg, t = not neg, t.operand
         if isinstance(t, ast.Call) and isinstance(t.func, ast.Name):
             out.append((t.func.id, neg))
+    # boolean-mask selection:  mask = np.array([pred(p) for p in X]) ; X[mask]  /  X[~mask]
+    def mask_pred(v):
+        while isinstance(v, ast.Call) and src(v.func).split(".")[-1] in ("array", "asarray", "list", "fromiter") and v.args:
+            v = v.args[0]
+        if isinstance(v, (ast.ListComp, ast.GeneratorExp)) and len(v.generators) == 1 and not v.generators[0].ifs:
+            e = v.elt
+            neg = False
+            while isinstance(e, ast.UnaryOp) and isinstance(e.op, ast.Not):
+                neg, e = not neg, e.operand
+            if isinstance(e, ast.Call) and isinstance(e.func, ast.Name):
+                return e.func.id, neg
+        return None
+    masks = {}
+    for n in ast.walk(fn_node):
+        if isinstance(n, ast.Assign) and len(n.targets) == 1 and isinstance(n.targets[0], ast.Name):
+            mp = mask_pred(n.value)
+            if mp is not None:
+                masks[n.targets[0].id] = mp
+    for n in ast.walk(fn_node):
+        if isinstance(n, ast.Subscript):
+            sl = n.slice
+            inv = False
+            while isinstance(sl, ast.UnaryOp) and isinstance(sl.op, (ast.Invert, ast.Not)):
+                inv, sl = not inv, sl.operand
+            if isinstance(sl, ast.Call) and src(sl.func).split(".")[-1] == "logical_not" and sl.args:
+                inv, sl = not inv, sl.args[0]
+            if isinstance(sl, ast.Name) and sl.id in masks:
+                fn_, neg = masks[sl.id]
+                out.append((fn_, neg != inv))
+            elif mask_pred(sl) is not None:
+                fn_, neg = mask_pred(sl)
+                out.append((fn_, neg != inv))
     return out
 
 
